@@ -59,7 +59,8 @@ extern int vf_cur_thread;            /* simulated thread issuing the calls */
 extern bool vf_timers_autofire;      /* every armed timer may fire nondeterministically at each epoll_wait */
 extern bool vf_tasks_autorun;        /* deferred tasks run at the next epoll_wait (else only at m_thpool_free) */
 extern bool vf_epoll_desc;           /* report ready descriptors in descending order */
-extern int vf_epoll_waits;           /* number of epoll_wait calls so far */
+extern int vf_epoll_waits;
+extern int vf_epoll_fail_errno;       /* harness: make the next epoll_wait fail once with this errno */           /* number of epoll_wait calls so far */
 
 /* harness helpers */
 int vf_user_fd(void);                         /* a descriptor opened by the user */
